@@ -116,6 +116,12 @@ def gen_case(seed, n):
             who = r.choice([f"u{n}g{g}", f"u{n}k{j}", f"u{n}k{j}b"])
             rs.append(req(who, r.choice(["valid", "valid", "wrong", "missing", "garbled"]), r.choice(["bad-a", "bad-k"])))
         scripts.append({"t": r.uniform(0, 1.5), "reqs": rs, "group": None, "shared": True})
+    # epilogue, long after the concurrent phase: one connection per group doing valid, a NEVER-before-seen wrong password, valid.
+    # Strictly sequential, so this wrong password is never in flight together with another lookup of the user: accepting it
+    # cannot be the shared-record race.
+    for g in range(ngroups):
+        user = f"u{n}g{g}"
+        scripts.append({"t": 6.0 + 0.03 * g, "reqs": [req(user, "valid"), req(user, "wrong", f"late-fresh-{g}"), req(user, "valid")], "group": g, "shared": True, "epilogue": True})
     c["scripts"] = scripts
     return c
 
@@ -284,7 +290,17 @@ def run(a, res):
                     mixed = q["user"] in valid_users
                     overlap = any(results[i][1] <= td and ts <= results[i][2] for i in valid_users.get(q["user"], []) if i in results)
                     res.count("wrong_password_forwarded_while_valid_in_flight" if overlap else "wrong_password_forwarded_no_valid_in_flight")
-                    key = "rejected-credentials-forwarded:same-user-mixed-passwords" if (kind == "wrong" and mixed) else \
+                    # the known shared-record defect needs THIS wrong password to have been in flight together with the user's valid
+                    # one at some point (it is then stored in the shared record next to another lookup's OK); a wrong password
+                    # that never overlapped a valid lookup and is accepted anyway is a different failure
+                    raced = False
+                    if kind == "wrong" and mixed:
+                        same = [x for (_s2, x) in allq if x["user"] == q["user"] and x.get("password") == q.get("password") and x["i"] in results]
+                        for x in same:
+                            xs, xd = results[x["i"]][1], results[x["i"]][2]
+                            if any(results[i][1] <= xd and xs <= results[i][2] for i in valid_users.get(q["user"], []) if i in results):
+                                raced = True
+                    key = ("rejected-credentials-forwarded:same-user-mixed-passwords" if raced else "rejected-credentials-forwarded:same-user:password-never-in-flight-with-valid-one") if (kind == "wrong" and mixed) else \
                           ("rejected-credentials-forwarded" if kind == "wrong" else f"{kind}-credentials-forwarded")
                     res.violation(key, desc + f"; expected 407 and nothing at the origin; observed: the origin received it (X-Verif-User={ups[0].header('X-Verif-User')!r}), client status {m.status}.\n"
                                   "history of this user (helper queries/replies and client requests):\n" + helper_history(q["user"]), wit)
